@@ -78,7 +78,10 @@ NS_SETS = {
     # irregular spacing: with RENUM 20,,20 the outer lines move up while a middle line moves down
     # onto the old number of another line (10->20, 60->40, 70->60, 75->80)
     'i4': (10, 60, 70, 75),
+    # the lines of n4 written with two blanks wherever the other sets have one (ON ERROR  GOTO  0, IF A  THEN  10  ELSE  20)
+    'n4w': (10, 20, 30, 40),
 }
+WIDE = ('n4w',)
 
 ARGS = {
     'default': (None, None, None),
@@ -242,6 +245,8 @@ def build(nsid, spec, variant='B'):
                 parts = stmt_parts(kind, i, targets)
         else:
             parts = stmt_parts('fill', i, ())
+        if nsid in WIDE:
+            parts = [q.replace(b' ', b'  ') if isinstance(q, bytes) else q for q in parts]
         prog.append((num, parts))
     return prog
 
@@ -741,11 +746,11 @@ def legs(ctx):
     out = []
     if ctx.quick:
         single = []
-        for nsid in ('n4', 'z4', 'd4', 'i4'):
+        for nsid in ('n4', 'z4', 'd4', 'i4', 'n4w'):
             single += _shards(nsid, ARGS_ALL, enum_single(nsid), 12)
         out.append(Leg('single', single, work_direct, exhaustive=True,
                        bound='every program with 1 reference statement (22 kinds x all targets incl. missing/0) '
-                             'on line sets n4,z4,d4,i4 x %d RENUM argument triples' % len(ARGS_ALL) + ''))
+                             'on line sets n4,z4,d4,i4,n4w (n4 with doubled blanks) x %d RENUM argument triples' % len(ARGS_ALL) + ''))
         pairs = _shards('n4', ARGS_TRAP + ['gap'], enum_pairs('n4', CORE_QUICK), 40)
         out.append(Leg('pairs', pairs, work_direct, exhaustive=True,
                        bound='every program with 2 statements of the 8-kind quick core alphabet on lines '
@@ -756,11 +761,11 @@ def legs(ctx):
                              'of the quick core alphabet at every other position'))
         return out
     single = []
-    for nsid in ('n4', 'z4', 'd4', 'n3', 'n5', 'i4'):
+    for nsid in ('n4', 'z4', 'd4', 'n3', 'n5', 'i4', 'n4w'):
         single += _shards(nsid, ARGS_ALL, enum_single(nsid), 12)
     out.append(Leg('single', single, work_direct, exhaustive=True,
                    bound='every program with 1 reference statement (22 kinds x all targets incl. missing/0) '
-                         'on line sets n4,z4,d4,n3,n5,i4 x %d RENUM argument triples' % len(ARGS_ALL) + ''))
+                         'on line sets n4,z4,d4,n3,n5,i4,n4w (n4 with doubled blanks) x %d RENUM argument triples' % len(ARGS_ALL) + ''))
     pairs = _shards('n4', ARGS_CORE, enum_pairs('n4', CORE), 25)
     pairs += _shards('z4', ['default', 'range', 'inc5'], enum_pairs('z4', CORE_QUICK + ['onerr0']), 40)
     out.append(Leg('pairs', pairs, work_direct, exhaustive=True,
